@@ -88,3 +88,48 @@ def deterministic_wallet_signing():
     def sign(self, data, *a, **k):
         return self.sign_deterministic(data)
     rebind(ecdsa.SigningKey, 'sign', sign)
+
+
+def memo_ecdsa():
+    """Memoise ecdsa verification (a pure function of key, signature, message) and key decoding: the
+    library is not under test, and the tree searches re-validate the same signatures many times."""
+    import ecdsa
+    orig_verify = ecdsa.VerifyingKey.verify
+    orig_from_string = ecdsa.VerifyingKey.from_string
+    if getattr(orig_verify, '_vf_memo', False):
+        return
+    vcache = {}
+    kcache = {}
+
+    def verify(self, signature, data, *a, **k):
+        if a or k:
+            return orig_verify(self, signature, data, *a, **k)
+        key = (self.to_string(), bytes(signature), bytes(data))
+        r = vcache.get(key)
+        if r is None:
+            try:
+                r = (True, orig_verify(self, signature, data))
+            except Exception as e:     # BadSignatureError etc.: re-raised identically on every hit
+                r = (False, e)
+            vcache[key] = r
+        if r[0]:
+            return r[1]
+        raise r[1]
+    verify._vf_memo = True
+
+    def from_string(string, curve=ecdsa.NIST192p, *a, **k):
+        if a or k:
+            return orig_from_string(string, curve, *a, **k)
+        key = (bytes(string), curve.name)
+        r = kcache.get(key)
+        if r is None:
+            try:
+                r = (True, orig_from_string(string, curve))
+            except Exception as e:
+                r = (False, e)
+            kcache[key] = r
+        if r[0]:
+            return r[1]
+        raise r[1]
+    rebind(ecdsa.VerifyingKey, 'verify', verify)
+    rebind(ecdsa.VerifyingKey, 'from_string', staticmethod(from_string))
